@@ -58,6 +58,9 @@ pub enum Case {
     },
     /// input bytes, window-size signals and wakes while output is pending
     Input { keys: Vec<u8>, batch: usize, pending_kb: usize, winch: usize, slow: bool, seed: u64 },
+    /// reports, keys and mouse sequences (printed by the C04 protocol printer) typed into the pty in
+    /// batches of arbitrary size while output is pending: the events must come out as printed
+    Events { items: Vec<super::c04::Item>, batches: Vec<usize>, pending_kb: usize, slow: bool, seed: u64 },
     /// termination signal must surface as Error::Quit
     Quit {
         signal: i32,
@@ -510,6 +513,99 @@ fn check_input_case(keys: &[u8], batch: usize, pending_kb: usize, winch: usize, 
     Ok(())
 }
 
+fn check_events_case(
+    items: &[super::c04::Item],
+    batches: &[usize],
+    pending_kb: usize,
+    slow: bool,
+    seed: u64,
+    ctx: &mut Ctx,
+) -> Result<(), Fail> {
+    let drain = if slow { Drain::Slow { max_read: 1024, pause_us: 200 } } else { Drain::Fast };
+    let (mut session, _) = open_session(drain, seed, None)?;
+    let mut term = session.term.take().unwrap();
+    if pending_kb > 0 {
+        term.write_all(&filler(pending_kb * 1024)).map_err(|e| Fail::new("term:write-error", format!("{e}")))?;
+    }
+    let mut bytes = Vec::new();
+    let mut expected = Vec::new();
+    for item in items {
+        bytes.extend_from_slice(&item.enc);
+        match super::c04::to_event(&item.ev) {
+            Some(ev) => expected.push(ev),
+            None => {
+                ctx.nondeciding = true;
+                return Ok(());
+            }
+        }
+    }
+    let mut got: Vec<TerminalEvent> = Vec::new();
+    let mut sent = 0usize;
+    let mut bi = 0usize;
+    let mut idle = 0usize;
+    let mut crossings = 0u64;
+    while got.len() < expected.len() && idle < 300 {
+        if sent < bytes.len() {
+            let n = batches.get(bi % batches.len().max(1)).copied().unwrap_or(64).clamp(1, 2048).min(bytes.len() - sent);
+            bi += 1;
+            if !session.pty.write_master(&bytes[sent..sent + n]) {
+                ctx.nondeciding = true;
+                return Ok(());
+            }
+            sent += n;
+            if n > 1024 {
+                crossings += 1;
+            }
+        }
+        let mut first = true;
+        loop {
+            let t = if first { 2 } else { 0 };
+            first = false;
+            match term.poll(Some(Duration::from_millis(t))) {
+                Ok(None) => {
+                    if sent >= bytes.len() {
+                        idle += 1;
+                    }
+                    break;
+                }
+                Ok(Some(TerminalEvent::Wake)) | Ok(Some(TerminalEvent::Resize(_))) => {}
+                Ok(Some(ev)) => {
+                    got.push(ev);
+                    idle = 0;
+                }
+                Err(e) => fail!("input:poll-error", "poll failed while input was arriving: {e:?}"),
+            }
+        }
+    }
+    // anything extra that is still pending
+    while let Ok(Some(ev)) = term.poll(Some(Duration::from_millis(2))) {
+        if !matches!(ev, TerminalEvent::Wake | TerminalEvent::Resize(_)) {
+            got.push(ev);
+        }
+    }
+    drop(term);
+    drop(session);
+    ctx.feat("events.sessions");
+    ctx.feat_n("events.items", items.len() as u64);
+    ctx.feat_n("events.bytes", bytes.len() as u64);
+    ctx.feat_n("events.batches-larger-than-read-buffer", crossings);
+    if got != expected {
+        let at = got.iter().zip(expected.iter()).position(|(a, b)| a != b).unwrap_or(got.len().min(expected.len()));
+        fail!(
+            if got.len() < expected.len() && at == got.len() { "events:lost" } else { "events:differ" },
+            "{} sequences ({} bytes) were typed into the pty; event #{at} is {:?}, expected {:?} ({} events arrived, {} expected); item = {:?}",
+            items.len(),
+            bytes.len(),
+            got.get(at),
+            expected.get(at),
+            got.len(),
+            expected.len(),
+            items.get(at).map(|i| super::dec_common::esc(&i.enc))
+        );
+    }
+    Ok(())
+}
+
 fn check_quit_case(signal: i32, pending_kb: usize, again: bool, seed: u64, ctx: &mut Ctx) -> Result<(), Fail> {
     // with a second signal pending at drop the wait for the sync report is cut short, so the
     // closing sequence is only judged when nothing else is queued in front of it
@@ -770,6 +866,20 @@ impl Prop for C17 {
                     seed: rng.next_u64(),
                 }
             }
+            9 => {
+                let n = rng.range(5, if tier.quick() { 120 } else { 600 });
+                let items = (0..n).map(|i| super::c04::gen_item(rng, i as u64 * 7 + 1)).collect();
+                let batches = (0..rng.range(1, 5))
+                    .map(|_| *rng.pick(&[1usize, 2, 7, 64, 300, 1023, 1024, 1025, 2048]))
+                    .collect();
+                Case::Events {
+                    items,
+                    batches,
+                    pending_kb: *rng.pick(&[0usize, 0, 100]),
+                    slow: rng.bool(),
+                    seed: rng.next_u64(),
+                }
+            }
             7 => Case::Quit {
                 signal: *rng.pick(&[libc::SIGTERM, libc::SIGINT, libc::SIGQUIT]),
                 pending_kb: *rng.pick(&[0usize, 50]),
@@ -810,6 +920,9 @@ impl Prop for C17 {
             }
             Case::Input { keys, batch, pending_kb, winch, slow, seed } => {
                 check_input_case(keys, *batch, *pending_kb, *winch, *slow, *seed, ctx)
+            }
+            Case::Events { items, batches, pending_kb, slow, seed } => {
+                check_events_case(items, batches, *pending_kb, *slow, *seed, ctx)
             }
             Case::Quit { signal, pending_kb, again, seed } => check_quit_case(*signal, *pending_kb, *again, *seed, ctx),
             Case::Exit { script, mode, odd_termios, seed } => check_exit_case(script, mode, *odd_termios, *seed, ctx),
